@@ -16,6 +16,7 @@ import (
 	"github.com/juev/hledger-lsp/internal/include"
 	"github.com/juev/hledger-lsp/internal/lsputil"
 	"github.com/juev/hledger-lsp/internal/parser"
+	"github.com/juev/hledger-lsp/internal/verifhook"
 	"github.com/juev/hledger-lsp/internal/workspace"
 )
 
@@ -249,6 +250,7 @@ func (s *Server) DidSave(ctx context.Context, params *protocol.DidSaveTextDocume
 }
 
 func (s *Server) publishDiagnostics(ctx context.Context, docURI protocol.DocumentURI, content string) {
+	verifhook.At("diag.enter", string(docURI))
 	if s.client == nil {
 		return
 	}
@@ -267,6 +269,7 @@ func (s *Server) publishDiagnostics(ctx context.Context, docURI protocol.Documen
 		return
 	}
 	resolved, loadErrors := s.loader.LoadFromContent(path, content)
+	verifhook.At("diag.loaded", string(docURI))
 	s.resolved.Store(docURI, resolved)
 
 	diagnostics := s.analyze(content)
